@@ -118,6 +118,8 @@ fn real_main() -> i32 {
             println!("// cfg {cfg:?}\n// args {:?} shadowing {}\n{}", p.args, p.has_shadowing, if args.get(3).is_some() { &p.unique } else { &p.shadowed });
             0
         }
+        Some("mmin") if args.len() >= 3 => orch::mmin(&args[2]),
+        Some("xfinal") if args.len() >= 5 => enginex::xfinal(&args[2], &args[3], args[4].parse().unwrap_or(0)),
         Some("kflip") => {
             // diagnostic: the polarity-flipped sibling of a source file and whether the front end accepts it
             let src = std::fs::read_to_string(args.get(2).map(|s| s.as_str()).unwrap_or("")).unwrap_or_default();
